@@ -21,8 +21,19 @@ fn seed_for(p: Proto) -> Option<Vec<u8>> {
     }
 }
 
+thread_local! {
+    /// did the verbatim control of the token currently under test pass? (set by `issue_with_control`)
+    static CONTROL_OK: std::cell::Cell<bool> = std::cell::Cell::new(true);
+}
+
 /// present `pres` against the issued case, judge with R2, record
 fn check(prop: &str, tag: &str, issue: &IssueCase, token: &str, pres: &Presentation, expect_accept: Option<bool>, acc: &mut Acc) {
+    // a token that is refused under its own key/footer/assertion is C01/C02's business: demanding acceptance
+    // of equivalent presentations would only repeat that; but *accepting* a presentation that is not
+    // authentic is this property's business whatever the control did, so negative presentations still run
+    if !CONTROL_OK.with(|c| c.get()) && expect_accept == Some(true) {
+        return;
+    }
     let (obs, calls) = pres.present();
     acc.executions += 1;
     acc.impl_calls += 1;
@@ -43,21 +54,25 @@ fn check(prop: &str, tag: &str, issue: &IssueCase, token: &str, pres: &Presentat
     }
 }
 
-/// issue + verbatim control; None (and counted) if the control fails
+/// issue + verbatim control. None if nothing was issued. If the control fails this is counted, the
+/// acceptance-demanding presentations of this token are skipped (see `check`), the rejecting ones still run.
 fn issue_with_control(case: &IssueCase, acc: &mut Acc) -> Option<String> {
     acc.impl_calls += 2;
     let Out::Ok(token) = case.issue() else {
         acc.skipped_control_failed += 1;
+        CONTROL_OK.with(|c| c.set(true));
         return None;
     };
     let (obs, _) = Presentation::of(case, &token).present();
     if obs.is_ok() {
         acc.controls_ok += 1;
-        Some(token)
+        CONTROL_OK.with(|c| c.set(true));
     } else {
         acc.skipped_control_failed += 1;
-        None
+        acc.bump("control-failed(see C01/C02)");
+        CONTROL_OK.with(|c| c.set(false));
     }
+    Some(token)
 }
 
 fn finish(run: Run, all: Acc, extra: serde_json::Value) -> i32 {
@@ -282,8 +297,16 @@ pub fn run_c05(tier: &str) -> i32 {
                         if other != f_txt && !other.is_empty() {
                             let t2 = format!("{}{}", head, b64::encode(other.as_bytes()));
                             check("C05", "footer-segment-replaced", &case, &token, &Presentation::of(&case, &t2), None, &mut acc);
+                            // segment and expectation changed together: still not the footer the token was built with
+                            let mut pres = Presentation::of(&case, &t2);
+                            pres.footer = dom[fj].clone();
+                            check("C05", "footer-segment-and-expectation-swapped", &case, &token, &pres, None, &mut acc);
                         }
                     }
+                    // segment stripped and no footer expected
+                    let mut pres = Presentation::of(&case, &no_dot);
+                    pres.footer = None;
+                    check("C05", "footer-segment-stripped-and-none-expected", &case, &token, &pres, None, &mut acc);
                 }
             } else {
                 // a footer segment added to a footer-less token, presented with no expected footer
@@ -292,6 +315,10 @@ pub fn run_c05(tier: &str) -> i32 {
                     if !other.is_empty() {
                         let t2 = format!("{}.{}", token, b64::encode(other.as_bytes()));
                         check("C05", "footer-segment-added", &case, &token, &Presentation::of(&case, &t2), None, &mut acc);
+                        // grafted footer presented together with the matching expectation
+                        let mut pres = Presentation::of(&case, &t2);
+                        pres.footer = dom[fj].clone();
+                        check("C05", "footer-grafted-and-expected", &case, &token, &pres, None, &mut acc);
                     }
                 }
             }
